@@ -10,6 +10,11 @@ func ReplayCase(c Case) *Violation {
 	if len(id) >= 3 {
 		id = id[:3]
 	}
+	if c.Cfg.FailAt > 0 && id != "C17" {
+		// a faulted execution of any fault phase (C07, C18)
+		v, _ := guarded(id, c, func() (*Violation, map[string]int) { v, ev, _ := RunFault(c); return v, ev })
+		return v
+	}
 	if f, ok := replayers[id]; ok {
 		v, _ := guarded(id, c, func() (*Violation, map[string]int) { return f(c), nil })
 		return v
